@@ -1,6 +1,7 @@
 package chk
 
 import (
+	"bytes"
 	"context"
 	"errors"
 	"fmt"
@@ -10,7 +11,9 @@ import (
 
 	"github.com/ipfs/go-graphsync"
 	ipld "github.com/ipld/go-ipld-prime"
+	"github.com/ipld/go-ipld-prime/codec/dagcbor"
 	"github.com/ipld/go-ipld-prime/datamodel"
+	"github.com/ipld/go-ipld-prime/node/basicnode"
 	"github.com/libp2p/go-libp2p/core/peer"
 
 	datatransfer "github.com/filecoin-project/go-data-transfer/v2"
@@ -55,8 +58,22 @@ type tch struct {
 
 func (t *tch) cur() graphsync.RequestID { return t.ids[len(t.ids)-1] }
 
+// wireNode passes extension data through DAG-CBOR, as graphsync does when it carries the
+// extension over the network (map keys arrive in canonical order, typed nodes become plain).
+func wireNode(n datamodel.Node) datamodel.Node {
+	var buf bytes.Buffer
+	if err := dagcbor.Encode(n, &buf); err != nil {
+		panic(err)
+	}
+	nb := basicnode.Prototype.Any.NewBuilder()
+	if err := dagcbor.Decode(nb, &buf); err != nil {
+		panic(err)
+	}
+	return nb.Build()
+}
+
 func dtExt(m datatransfer.Message) map[graphsync.ExtensionName]datamodel.Node {
-	return map[graphsync.ExtensionName]datamodel.Node{extension.ExtensionDataTransfer1_1: m.ToIPLD()}
+	return map[graphsync.ExtensionName]datamodel.Node{extension.ExtensionDataTransfer1_1: wireNode(m.ToIPLD())}
 }
 
 // openOut opens (or re-opens) an outgoing graphsync request for a channel through the transport.
